@@ -1420,6 +1420,7 @@ func (d *Data) storeAndUpdate(ctx *datastore.VersionedCtx, keyStr string, newDat
 	if err != nil {
 		return err
 	}
+	dvid.VerifPoint("yield:neuronjson.storeAndUpdate:entry")
 
 	// get original data so we can handle default update and tell which values change for _user/_time fields.
 	origData, found, err := d.getStoreData(ctx, keyStr)
@@ -1429,6 +1430,7 @@ func (d *Data) storeAndUpdate(ctx *datastore.VersionedCtx, keyStr string, newDat
 	if !found {
 		origData = nil
 	}
+	dvid.VerifPoint("yield:neuronjson.storeAndUpdate:after-read")
 	if _, found := newData["bodyid_user"]; found {
 		return fmt.Errorf("'bodyid_user' field not allowed")
 	}
@@ -1470,6 +1472,7 @@ func (d *Data) storeAndUpdate(ctx *datastore.VersionedCtx, keyStr string, newDat
 		mdb.addBodyID(bodyid)
 		mdb.mu.Unlock()
 	}
+	dvid.VerifPoint("yield:neuronjson.storeAndUpdate:before-store-write")
 	return d.putStoreData(ctx, keyStr, newData)
 }
 
@@ -1583,6 +1586,7 @@ func (d *Data) DeleteData(ctx storage.VersionedCtx, keyStr string) error {
 	if err != nil {
 		return err
 	}
+	dvid.VerifPoint("yield:neuronjson.DeleteData:entry")
 	mdb, found := d.getMemDBbyVersion(ctx.VersionID())
 	if found {
 		mdb.mu.Lock()
@@ -1599,6 +1603,7 @@ func (d *Data) DeleteData(ctx storage.VersionedCtx, keyStr string) error {
 		}
 		mdb.mu.Unlock()
 	}
+	dvid.VerifPoint("yield:neuronjson.DeleteData:before-store-delete")
 	return d.deleteStoreData(ctx, keyStr)
 }
 
